@@ -233,15 +233,21 @@ def run_real(scn, perturb_seed=None, timeout=15.0):
     if loop_error or not t.is_alive():
         err = "loop ended: %s" % loop_error
     stopping.append(1)
+    # tear down on the loop thread itself (closing the map from here would race with the running
+    # loop); errors of this harness teardown are not observations of the server
     try:
-        srv.task_dispatcher.shutdown(cancel_pending=True, timeout=1)
-        srv.close()
         from waitress import wasyncore
 
-        wasyncore.close_all(srv._map)
-    except Exception as e:  # noqa
-        err = repr(e)
+        srv.task_dispatcher.shutdown(cancel_pending=True, timeout=1)
+        srv.trigger.pull_trigger(lambda: wasyncore.close_all(srv._map, ignore_all=True))
+    except Exception:  # noqa
+        pass
     t.join(3)
+    if t.is_alive():
+        try:
+            srv.close()
+        except Exception:  # noqa
+            pass
     _perturb["rng"] = None
     return {"conns": results, "log": [(c, i, what) for _, c, i, what in log.events], "error": err}
 
